@@ -24,7 +24,7 @@ MODEL = ['Gen/GenConsts.v', 'Model/Base.v', 'Model/Tables.v', 'Model/Txn.v', 'Mo
 DEPS = {'C13': MODEL + ['Proofs/C13.v'],
         'C03': MODEL + ['Proofs/C03.v', 'Proofs/C03r.v', 'Proofs/C03e.v', 'Proofs/C03s.v'],
         'C02': MODEL + ['Proofs/C02.v', 'Proofs/C02m.v', 'Proofs/C02c.v']}
-BUDGET = {'quick': {'C13': (16, 20), 'C03': (16, 20), 'C02': (14, 16)},
+BUDGET = {'quick': {'C13': (40, 25), 'C03': (64, 25), 'C02': (40, 20)},
           'thorough': {'C13': (200, 40), 'C03': (240, 30), 'C02': (160, 25)}}
 P_CAND = {'C13': 0.0, 'C03': 1.0, 'C02': 1.0}
 SVC = {'x-roles': 'admin,service'}
